@@ -100,6 +100,7 @@ pub fn draw_history(t: &mut Tape, n: usize, cuts: &[usize], with_noise: bool) ->
                 0 => ops.extend_from_slice(&[OP_WRITE, 0]),
                 1 => ops.extend_from_slice(&[OP_FLUSH, 0]),
                 2 => ops.extend_from_slice(&[OP_PEEK, 0]),
+                3 => ops.extend_from_slice(&[OP_PEEK_MUT, 0]),
                 _ => {}
             }
         }
@@ -346,7 +347,7 @@ fn exec(sc: &Scenario, ctx: &mut Ctx) -> Vec<Violation> {
     }
     let ops = sc.l("ops");
     let (v, o, _) = one_history(sc, ops, &oneshot);
-    let writes = o.events.iter().filter(|e| e.op != OP_FLUSH && e.op != OP_PEEK && e.op != OP_FINISH).count();
+    let writes = o.events.iter().filter(|e| e.op != OP_FLUSH && e.op != OP_PEEK && e.op != OP_PEEK_MUT && e.op != OP_FINISH).count();
     if o.events.iter().any(|e| e.op == OP_WRITE && e.offered == 0) {
         ctx.stats.hit("probe.empty_write_in_history");
     }
